@@ -145,6 +145,17 @@ func FromRef(c *ref.CPU) z80.States {
 	return s
 }
 
+// Arch returns the architectural part of a States value: the fields the properties talk
+// about.  A maintainer may add further public fields to States (an EI latch, MEMPTR, a Q
+// latch ...); comparisons against an oracle-built expectation ignore such fields, while
+// emulator-vs-emulator (twin) comparisons keep comparing the whole struct.
+func Arch(s z80.States) z80.States {
+	var o z80.States
+	o.GPR, o.SPR, o.Alternate = s.GPR, s.SPR, s.Alternate
+	o.IFF1, o.IFF2, o.IM = s.IFF1, s.IFF2, s.IM
+	return o
+}
+
 // StateJSON renders a States value for witnesses.
 type StateJSON struct {
 	AF, BC, DE, HL     string
